@@ -30,6 +30,7 @@ func init() {
 			{ID: "C10.7", Desc: "never (nil, nil)", Run: ruleC10_7, MinSites: 2},
 			{ID: "C10.8", Desc: "logging is inert", Run: ruleC10_8, MinSites: 3},
 			{ID: "C10.9", Desc: "bounded waits on the foreground path", Run: func(c *Ctx) { ruleBoundedWaits(c, "C10.9", true) }, MinSites: 3},
+			{ID: "C10.10", Desc: "no mutex is left locked on any return (a failing store operation must not wedge the next RoundTrip)", Run: func(c *Ctx) { ruleC14_1(c); renameRule(c, "C14.1", "C10.10") }, MinSites: 4},
 		},
 	})
 }
